@@ -1,5 +1,6 @@
 """Which harness modules decide which property."""
 PROPERTIES = {
+    "C01": ["harness.C01_total"],
     "C09": ["harness.C09_ignored"],
     "C10": ["harness.C10_location"],
 }
